@@ -79,7 +79,7 @@ def fields_outside_subqueries(node, out):
 @st.composite
 def join_case(draw):
     cls = draw(st.sampled_from(CTXS))
-    base = draw(st.sampled_from(["select", "select", "select", "update"]))
+    base = draw(st.sampled_from(["select", "select", "select", "update", "delete"]))
     table_keys = [k for k in KEYS if POOL[k][0] == "tbl"]
     nfrom = 1 if base == "update" else draw(st.integers(1, 2))
     frm = draw(st.lists(st.sampled_from([k for k in KEYS if POOL[k][0] != "cte"]), min_size=nfrom, max_size=nfrom, unique=True))
@@ -93,6 +93,9 @@ def join_case(draw):
     how = draw(st.sampled_from(["inner", "left", "right", "outer"]))
 
     def fld(keys):
+        if draw(st.integers(0, 7)) == 0:
+            # a column given without a table (Field("id")): it refers to no source, so it can never make a condition invalid
+            return ["col", None, draw(st.sampled_from(["a", "b", "id"]))]
         return ["col", draw(st.sampled_from(keys)), draw(st.sampled_from(["a", "b", "id"]))]
 
     pool_for_crit = avail_keys + draw(st.lists(st.sampled_from(KEYS), max_size=2))
@@ -149,6 +152,8 @@ def join_steps(case):
     else:
         for k in case["from"]:
             steps.append(["from_", [["src", k]]])
+        if case["base"] == "delete":
+            steps.append(["delete", []])
     if case["prejoin"]:
         steps.append(["join", [["src", case["prejoin"]], ["enum", "JoinType", "inner"]], {}, ["cross", []]])
     return steps
